@@ -13,6 +13,7 @@ package c02
 
 import (
 	"fmt"
+	valsettypes "github.com/palomachain/paloma/v2/x/valset/types"
 	"math/rand"
 	"sort"
 	"strings"
@@ -75,6 +76,7 @@ type mon struct {
 	obsCount map[string]int // chain|epoch|nonce -> observed claims
 	applied  map[string]int // chain|key -> times effect seen
 	byz      map[string]bool
+	voteLog  map[string]map[string]map[string]bool // chain|nonce -> claim identity -> validators whose claim tx was accepted
 	lazy     map[string]bool
 	tokenOf  map[string]string
 	denoms   []string
@@ -148,22 +150,61 @@ func (m *mon) userBalances() map[string]sdkmath.Int {
 
 func (m *mon) claimFor(v *chain.Account, ev *event, alt bool) sdk.Msg {
 	compass := m.w.Compass[ev.Chain]
+	// every second altered claim differs from the real event only in the SPELLING of an address (letter case): it is a
+	// different claim (another receiver string that does not decode, another contract string) that a lenient
+	// comparison might pool with the honest one
+	spelling := alt && (ev.Nonce+uint64(len(v.Name)))%2 == 0
 	switch ev.Kind {
 	case "batch":
-		bn := ev.BatchN
-		if alt {
+		bn, erc := ev.BatchN, ev.ERC20
+		if spelling {
+			erc = "0x" + strings.ToUpper(strings.TrimPrefix(erc, "0x"))
+		} else if alt {
 			bn += 1000
 		}
-		return world.MsgBatchClaim(v, ev.Chain, compass, ev.Nonce, ev.EthH, bn, ev.ERC20)
+		return world.MsgBatchClaim(v, ev.Chain, compass, ev.Nonce, ev.EthH, bn, erc)
 	default:
 		amt, rcv := ev.Amount, ev.Receiver
-		if alt {
+		if spelling {
+			rcv = respell(rcv)
+		} else if alt {
 			// what a byzantine validator wants: more coins, to itself
 			amt = amt.MulRaw(1000)
 			rcv = v.Bech
 		}
 		return world.MsgDepositClaim(v, ev.Chain, compass, ev.Nonce, ev.EthH, ev.ERC20, amt, "0x00000000000000000000000000000000000000e1", rcv)
 	}
+}
+
+// respell upper-cases the last letter of an address string (mixed-case bech32 does not decode).
+func respell(a string) string {
+	b := []byte(a)
+	for i := len(b) - 1; i >= 0; i-- {
+		if b[i] >= 'a' && b[i] <= 'z' {
+			b[i] -= 32
+			break
+		}
+	}
+	return string(b)
+}
+
+// claimIdentity: the claim as the remote event it reports, without the fields that name the voter.
+func claimIdentity(msg sdk.Msg) string {
+	switch t := msg.(type) {
+	case *skywaytypes.MsgSendToPalomaClaim:
+		cp := *t
+		cp.Orchestrator, cp.Metadata = "", valsettypes.MsgMetadata{}
+		return "deposit|" + cp.String()
+	case *skywaytypes.MsgBatchSendToRemoteClaim:
+		cp := *t
+		cp.Orchestrator, cp.Metadata = "", valsettypes.MsgMetadata{}
+		return "batch|" + cp.String()
+	case *skywaytypes.MsgLightNodeSaleClaim:
+		cp := *t
+		cp.Orchestrator, cp.Metadata = "", valsettypes.MsgMetadata{}
+		return "sale|" + cp.String()
+	}
+	return ""
 }
 
 func run(c fw.Case, tier string, rec *fw.Recorder) {
@@ -184,7 +225,7 @@ func run(c fw.Case, tier string, rec *fw.Recorder) {
 		return
 	}
 	m := &mon{rec: rec, r: r, w: w, c: w.C, p: p, events: map[string]map[uint64]*event{}, maxEv: map[string]uint64{}, ethH: 1000,
-		epoch: map[string]int{}, obsCount: map[string]int{}, applied: map[string]int{}, byz: map[string]bool{}, lazy: map[string]bool{},
+		epoch: map[string]int{}, obsCount: map[string]int{}, applied: map[string]int{}, byz: map[string]bool{}, voteLog: map[string]map[string]map[string]bool{}, lazy: map[string]bool{},
 		tokenOf: map[string]string{}, valByOp: map[string]*chain.Account{}, claimedB: map[string]bool{}, retAt: map[string]int{}, retTo: map[string]uint64{}}
 	for _, ch := range chains {
 		m.events[ch] = map[uint64]*event{}
@@ -352,6 +393,7 @@ type sent struct {
 	bond  bool
 	index int
 	kind  string
+	msg   sdk.Msg
 }
 
 func (m *mon) block(valsBusy bool) {
@@ -399,7 +441,7 @@ func (m *mon) block(valsBusy bool) {
 				idx := c.PendingCount()
 				if err := c.QueueTx(v, 0, msg); err == nil {
 					used[v.Bech] = true
-					sents = append(sents, sent{v: v, ev: ev, alt: alt, bond: m.bonded(v), index: idx, kind: "claim"})
+					sents = append(sents, sent{v: v, ev: ev, alt: alt, bond: m.bonded(v), index: idx, kind: "claim", msg: msg})
 				}
 				break
 			}
@@ -457,6 +499,17 @@ func (m *mon) block(valsBusy bool) {
 		res := br.Txs[s.index]
 		if res.OK() {
 			m.rec.Count("claims_accepted", 1)
+			if id := claimIdentity(s.msg); id != "" && s.ev != nil {
+				// the monitor's own record of who voted for exactly which claim
+				k := fmt.Sprintf("%s|%d", s.ev.Chain, s.ev.Nonce)
+				if m.voteLog[k] == nil {
+					m.voteLog[k] = map[string]map[string]bool{}
+				}
+				if m.voteLog[k][id] == nil {
+					m.voteLog[k][id] = map[string]bool{}
+				}
+				m.voteLog[k][id][s.v.ValBech()] = true
+			}
 			if s.alt {
 				m.rec.Count("claims_accepted_altered", 1)
 			}
@@ -524,6 +577,38 @@ func (m *mon) block(valsBusy bool) {
 			}
 			if !lhs.GT(rhs) {
 				m.vio("observed-below-threshold", fmt.Sprintf("attestation %s nonce %d took effect with distinct voters holding %d of %s power (not > 66%%); vote list has %d entries", ch, a.Nonce, sum, pw.total, len(a.Votes)), wit(a))
+			}
+			// (1b) the same threshold over the validators whose ACCEPTED claim was byte-identical to the one that took
+			// effect (the monitor's own log; the chain's vote list is what (1) trusts)
+			if id := claimIdentity(a.Claim.(sdk.Msg)); id != "" {
+				log := m.voteLog[fmt.Sprintf("%s|%d", ch, a.Nonce)]
+				complete := true
+				for _, v := range a.Votes {
+					found := false
+					for _, voters := range log {
+						if voters[v] {
+							found = true
+						}
+					}
+					if !found {
+						complete = false // a vote the monitor did not see being cast: do not judge this one
+					}
+				}
+				if complete {
+					same := int64(0)
+					for v := range log[id] {
+						same += pw.of[v]
+					}
+					m.rec.Eval(1)
+					m.rec.Count("observed_checked_against_own_vote_log", 1)
+					if !sdkmath.NewInt(same).MulRaw(100).GT(pw.total.MulRaw(66)) {
+						w2 := wit(a)
+						w2["validators_that_voted_for_exactly_this_claim"] = keysOf(log[id])
+						m.vio("observed-without-identical-votes", fmt.Sprintf("attestation %s nonce %d took effect although the validators whose accepted claim was identical to it hold only %d of %s power; the chain's vote list has %d entries", ch, a.Nonce, same, pw.total, len(a.Votes)), w2)
+					}
+				} else {
+					m.rec.Count("observed_with_votes_outside_own_log", 1)
+				}
 			}
 			// (2) consecutive order, one per nonce
 			want := preLast[ch] + uint64(i) + 1
@@ -642,7 +727,7 @@ func init() {
 	fw.Register(&fw.Prop{
 		ID:    "C02",
 		Level: "exploration",
-		Rule: "seeded ABCI histories of the real app: a simulated remote chain emits deposit / executed-batch events with consecutive nonces; one pigeon per validator reads its own cursor from the chain and votes for the next event (honest), late (lazy) or for an altered claim at the same nonce (byzantine), sometimes repeating or skipping nonces; users and validators move stake, validators get jailed and unjail, governance overrides the oracle cursor down / up / to the same value while votes are pending (after which pigeons re-vote, as real pigeons do). " +
+		Rule: "seeded ABCI histories of the real app: a simulated remote chain emits deposit / executed-batch events with consecutive nonces; one pigeon per validator reads its own cursor from the chain and votes for the next event (honest), late (lazy) or for an altered claim at the same nonce (byzantine: a greedy variant, or a variant that differs only in the letter case of an address), sometimes repeating or skipping nonces; users and validators move stake, validators get jailed and unjail, governance overrides the oracle cursor down / up / to the same value while votes are pending (after which pigeons re-vote, as real pigeons do). " +
 			"After every block the shadow oracle checks every attestation record (duplicate-free vote list), every attestation that took effect in the block (distinct voters' stored power*100 > 66*total, consecutive nonce, one per nonce per reset epoch, cursor advanced by exactly the number of effects) and the effects (supply and receiver balances change by exactly the observed claims). " +
 			"evaluations = oracle comparisons; distinct_nontrivial = distinct abstract oracle states (per chain: backlog, pending attestations, votes on them, reset epoch; total power)",
 		Assumptions: []string{
@@ -652,7 +737,16 @@ func init() {
 		},
 		Cases:       cases,
 		Run:         run,
-		MinCounters: []string{"attestations_observed", "claims_accepted", "claims_accepted_altered", "deposits_applied", "overrides", "tallies_within_2pct_of_threshold"},
+		MinCounters: []string{"attestations_observed", "claims_accepted", "claims_accepted_altered", "deposits_applied", "overrides", "tallies_within_2pct_of_threshold", "observed_checked_against_own_vote_log"},
 		TimeoutS:    1500,
 	})
+}
+
+func keysOf(m map[string]bool) []string {
+	var out []string
+	for k := range m {
+		out = append(out, k)
+	}
+	sort.Strings(out)
+	return out
 }
